@@ -16,6 +16,7 @@ EXPECTED = [
     'restore/move-source-is-the-payload',
     'restore/move-destination-is-the-original-location',
     'restore/only-the-info-file-is-removed',
+    'restore-twice/second-entry-for-the-same-path-is-refused',
     'pipeline/a-refused-entry-stops-the-run-with-exit-1',
     'pipeline/a-refusal-is-reported-on-stderr',
 ]
@@ -23,6 +24,7 @@ EXPECTED = [
 
 def build(S, tier, seed):
     restore.restore_one_vc(S)
+    restore.restore_twice_vc(S)
     restore.pipeline_vc(S)
 
 
@@ -70,6 +72,22 @@ def destination_battery(repo):
                             kind, after.get('work/x')))
                     if after.get('other/f') != before.get('other/f'):
                         problems.append('%s: link target modified' % kind)
+    # two trashed versions of the same path, one multi-index reply
+    for reply in ('0-1', '0,1', '1,0'):
+        with Sandbox(repo) as sb:
+            td = sb.path('T')
+            work = sb.path('work')
+            os.makedirs(work)
+            dest = os.path.join(work, 'x')
+            sb.add_entry(td, 'x', path=dest, date='2000-01-01T00:00:00')
+            sb.add_entry(td, 'x_1', path=dest, date='2001-01-01T00:00:00')
+            run = sb.run('trash-restore', ['--trash-dir', td, work], stdin=reply + '\n',
+                         cwd=work)
+            after = sb.snapshot()
+            left = [k for k in after if k.startswith('T/files/')]
+            if run['exit'] == 0 or len(left) != 1:
+                problems.append('reply %s on two versions of one path: exit %r, '
+                                'left in trash %r' % (reply, run['exit'], left))
     return {'confirmed': bool(problems), 'problems': problems[:10]}
 
 
